@@ -40,9 +40,9 @@ DoSetTweakedKey(cls) ==
     /\ IF Live /\ cls = "valid" THEN keyed' = "tweaked" /\ pos' = "b" ELSE UNCHANGED <<keyed, pos>>
     /\ UNCHANGED life
 
-(* cls: full | short | null | zero_len | too_long ; only on unkeyed or tweaked objects *)
+(* cls: full | short | null | zero_len | too_long ; on ANY key state (on a plainly keyed  *)
+(* object the code applies its incremental update to the plain schedule: modelled)       *)
 DoSetTweak(cls) ==
-    /\ keyed # "plain"
     /\ IF Live /\ cls \in {"full", "short", "null"} THEN pos' = "b" ELSE UNCHANGED pos
     /\ UNCHANGED <<life, keyed>>
 
